@@ -2,7 +2,8 @@
    Rule theorems are over Coq's real numbers (standard Reals axioms, listed by Print Assumptions);
    the formulas are the same Gallina definitions (C09/Rules.v) that the float instance executes. *)
 From Coq Require Import Reals List Bool Arith.
-From PB Require Import lib.Loop lib.LoopProofs C09.Rules C09.RealProofs.
+From Coq Require Import ZArith.
+From PB Require Import lib.Loop lib.LoopProofs C09.Rules C09.RealProofs C01.PyLoop C01.PyLoopProofs gen.GenLoops.
 Import ListNotations.
 
 (* stop rule: the loop stops exactly at the first pass whose recorded value is below tol or that
@@ -12,6 +13,29 @@ Theorem C09_stop_exact : forall (W B D : Type) (solve : nat -> W -> B) (reweight
   loop W B D solve reweight diff below budget w0 = spec W B D solve reweight diff below w0 budget.
 Proof. exact loop_spec. Qed.
 Print Assumptions C09_stop_exact.
+
+(* the stop rule of the loops AS WRITTEN IN THE SOURCE (table regenerated from /repo on every run by
+   tools/gen_loops.py): for every single-loop iterative method, every max_iter and every oracle, the
+   Python loop stops exactly where the functional specification says -- at the first pass that exits
+   early or records a value below tol, else after max_iter + l_stop - l_start passes -- and returns
+   exactly the recorded values of the passes before that point *)
+Theorem C09_stop_exact_source : forall name l, In (name, l) loops ->
+  forall (W B D : Type) (solve : nat -> W -> B) (reweight : nat -> B -> W -> W * bool)
+         (diff : nat -> W -> W -> B -> D) (below : D -> bool) (max_iter : Z) (w0 : W),
+  (l_early l = false -> forall k b w, snd (reweight k b w) = false) ->
+  pyloop W B D solve reweight diff below l max_iter w0 =
+  match spec W B D solve reweight diff below w0 (budget l max_iter) with
+  | None => None
+  | Some r => Some (r_base r, r_state r, map Some (r_hist r), r_reason r)
+  end.
+Proof.
+  intros name l Hin W B D solve reweight diff below m w0 He.
+  assert (Hall : forallb (fun p => loop_ok (snd p)) loops = true) by (vm_compute; reflexivity).
+  rewrite forallb_forall in Hall. specialize (Hall _ Hin). cbn [snd] in Hall.
+  rewrite (pyloop_refines W B D solve reweight diff below l m Hall He w0).
+  now rewrite loop_spec.
+Qed.
+Print Assumptions C09_stop_exact_source.
 
 (* on early exit the zero weights returned by the rule are NOT installed: the returned state is the
    one the exiting pass started from, and the returned baseline is its solve *)
